@@ -1,6 +1,12 @@
 import Tv.Handlers.C01
 import Tv.Handlers.C02
 import Tv.Handlers.Cross
+import Tv.Handlers.C20
+import Tv.Handlers.C18
+import Tv.Handlers.C17
+import Tv.Handlers.C12
+import Tv.Handlers.C13
+import Tv.Handlers.C09
 import Tv.Handlers.C03
 import Tv.Handlers.C14
 import Tv.Handlers.C19
@@ -9,7 +15,7 @@ import Tv.Handlers.C07
 open Tv Tv.Proto Tv.Handlers
 
 /-- per-function handlers -/
-def baseHandlers : List Handler := [c01, c02, c10, c07, c19, c14, c03]
+def baseHandlers : List Handler := [c01, c02, c10, c07, c19, c14, c03, c09, c13, c12, c17, c18, c20]
 
 def handlers : List Handler := baseHandlers ++ [c06 baseHandlers]
 
